@@ -101,6 +101,7 @@ fn check_one(rep: &mut Report, spec: &SysSpec, index: u64, entry: u64, depth: u6
 /// `soft`: undecided faithfulness queries are listed, not counted (shipped designs)
 #[allow(clippy::too_many_arguments)]
 fn check_system(rep: &mut Report, mut ctx: Context, sys: &TransitionSystem, label: &str, replay: serde_json::Value, entry: u64, depth: u64, z3: &mut Proc, cvc5: &mut Proc, z3old: &mut Option<Proc>, soft: bool, sample: Option<String>) {
+    crate::panics::set_context(format!("system {label}"));
     rep.count("programs", 1);
     let sys = sys.clone();
     let share = sharing_class(&ctx, &sys).join(" + ");
